@@ -2,6 +2,7 @@ package checks
 
 import (
 	"fmt"
+	"strings"
 	"net/netip"
 	"time"
 
@@ -49,7 +50,11 @@ func (e *simEnv) checkEmissions(res drive.Result, f *refmatch.Flow, js []judged,
 	for k, em := range ems {
 		c.Count("probes_verified", 1)
 		if em.ParseErr != nil {
-			viol("malformed", fmt.Sprintf("probe %d is not a well-formed packet: %v", k, em.ParseErr))
+			sig := "malformed"
+			if strings.Contains(em.ParseErr.Error(), "zero udp checksum") {
+				sig = "malformed-zero-udp-checksum"
+			}
+			viol(sig, fmt.Sprintf("probe %d is not a well-formed packet: %v", k, em.ParseErr))
 			continue
 		}
 		p := em.Pkt
